@@ -130,6 +130,16 @@ pub struct Case {
     /// configuration 0..2); then a mutual close paying the holder to D
     #[serde(default)]
     pub startup: Option<(u8, u8)>,
+    /// API group, raw entry point: the input of the supplied transaction (0 = the funding outpoint;
+    /// 1 = another txid; 2 = another output index of the funding transaction; 3 = a second input
+    /// next to the funding outpoint)
+    #[serde(default)]
+    pub raw_input: u8,
+    /// API group: the channel write of the first attempt fails (one-shot storage fault), the node
+    /// retries the same close; the retry is the request that is judged (a released closing
+    /// signature must be matched by a closed flag in the store)
+    #[serde(default)]
+    pub fault_retry: bool,
 }
 
 fn delta_strat() -> impl Strategy<Value = Delta> {
@@ -365,7 +375,7 @@ impl Prop for C07 {
         ]
     }
     fn cases(&self, tier: Tier) -> u32 {
-        tier.pick(1500, 60_000)
+        tier.pick(4000, 60_000)
     }
     fn min_nontrivial(&self, tier: Tier) -> usize {
         tier.pick(150, 1000)
@@ -376,9 +386,12 @@ impl Prop for C07 {
             (prop::bool::weighted(0.12), prop::bool::weighted(0.12), prop::bool::weighted(0.04), prop::bool::weighted(0.04), prop::bool::weighted(0.2)),
             (any::<bool>(), kind_strat(), prop::bool::weighted(0.8), delta_strat(), any::<bool>()),
             (prop_oneof![1 => Just(RateSel::MinMinus3), 2 => Just(RateSel::Min), 5 => Just(RateSel::Mid), 2 => Just(RateSel::Max), 1 => Just(RateSel::MaxPlus3), 1 => Just(RateSel::Zero)], any::<bool>(), prop::bool::weighted(0.08), prop::bool::weighted(0.1), prop::bool::weighted(0.12), prop::bool::weighted(0.4), prop_oneof![12 => Just(None), 1 => (0u8..2, 0u8..3).prop_map(Some)], 1u8..7, prop::bool::weighted(0.35), prop_oneof![30 => Just(None), 1 => (0u8..4, 0u8..3).prop_map(Some)]),
+            (prop_oneof![6 => Just(0u8), 1 => Just(1u8), 1 => Just(2u8), 1 => Just(3u8)], prop::bool::weighted(0.15)),
         )
-            .prop_map(|((anchors, outbound, upfront, view_delta, view_delta_neg), (htlc_in_holder, htlc_in_cp, mh, mc, remove_allowlisted), (phase1, holder_script, hseu, prop_delta, prop_delta_neg), (rate, holder_first, extra_output, cp_zero, cp_takes_holder_share, holder_replaced, wire, allow_edit, onchain, startup))| Case {
+            .prop_map(|((anchors, outbound, upfront, view_delta, view_delta_neg), (htlc_in_holder, htlc_in_cp, mh, mc, remove_allowlisted), (phase1, holder_script, hseu, prop_delta, prop_delta_neg), (rate, holder_first, extra_output, cp_zero, cp_takes_holder_share, holder_replaced, wire, allow_edit, onchain, startup), (raw_input, fault_retry))| Case {
                 startup,
+                raw_input: if phase1 { raw_input } else { 0 },
+                fault_retry,
                 onchain: onchain && wire.is_none(),
                 anchors, outbound, upfront, view_delta, view_delta_neg, htlc_in_holder, htlc_in_cp, missing_holder_commitment: mh, missing_cp_commitment: mc, remove_allowlisted,
                 phase1, holder_script, holder_script_equals_upfront: hseu, prop_delta, prop_delta_neg, rate, holder_first, extra_output, cp_zero, cp_takes_holder_share, holder_replaced, wire, allow_edit,
@@ -587,12 +600,38 @@ impl Prop for C07 {
                 opaths.push(p.clone());
                 facts.push(OutFact { value: o.value.to_sat(), script: o.script_pubkey.clone(), path: p });
             }
+            match case.raw_input {
+                1 => raw_tx.input[0].previous_output.txid = { use bitcoin::hashes::Hash; bitcoin::Txid::from_slice(&[0x5a; 32]).unwrap() },
+                2 => raw_tx.input[0].previous_output.vout ^= 1,
+                3 => {
+                    let mut extra = raw_tx.input[0].clone();
+                    extra.previous_output.vout = extra.previous_output.vout.wrapping_add(7);
+                    raw_tx.input.push(extra);
+                }
+                _ => {}
+            }
+            if case.raw_input != 0 {
+                st.class(format!("raw-input-mutation:{}", case.raw_input));
+            }
             let tx = raw_tx.clone();
+            if case.fault_retry {
+                w.fault.arm();
+                let first = w.with_chan(ci, |ch| ch.sign_mutual_close_tx(&tx, &opaths));
+                st.class(format!("fault-then-retry:first-attempt:{}", first.tag()));
+            }
             w.with_chan(ci, |ch| ch.sign_mutual_close_tx(&tx, &opaths))
         } else {
             let (hs, cs, hp) = (hscript_opt.clone(), cscript_opt.clone(), hpath.clone());
+            if case.fault_retry {
+                w.fault.arm();
+                let first = w.with_chan(ci, |ch| ch.sign_mutual_close_tx_phase2(to_h, to_c, &hs, &cs, &hp));
+                st.class(format!("fault-then-retry:first-attempt:{}", first.tag()));
+            }
             w.with_chan(ci, |ch| ch.sign_mutual_close_tx_phase2(to_h, to_c, &hs, &cs, &hp))
         };
+        // a fault that was armed but never reached (the first attempt was refused by policy) must not
+        // hit a later write of the harness itself
+        w.fault.disarm();
         let ename = if case.phase1 { "raw" } else { "semantic" };
         st.class(format!("{}:{}", ename, res.tag()));
         if std::env::var("VERIF_ERRCLASS").is_ok() && !res.is_ok() {
